@@ -3,7 +3,7 @@
    The C16_src_* theorems at the end are re-proved on every run against genprops/SamplerGen.v, the translation of _remove_pivot_segment, of the
    integer rule of _random_from_segments and of the shift / wrap in sample_from_continuum from the CURRENT sampler.py (harness/gen_sampler.py). *)
 From Coq Require Import String List Arith ZArith QArith Qround Bool Lia.
-From PGA Require Import Sampler.Shuffle Sampler.ShuffleProofs.
+From PGA Require Import Sampler.Shuffle Sampler.ShuffleProofs Sampler.ShuffleRetry.
 From PGAprops Require Import SamplerGen.
 Import ListNotations.
 Local Open Scope Q_scope.
@@ -67,6 +67,22 @@ Theorem C16_wrap p binf bsup u :
   (ss u + p <= bsup -> ss (shift_unit p binf bsup u) == ss u + p) /\
   (bsup < ss u + p -> ss (shift_unit p binf bsup u) == ss u + p - (bsup - binf)).
 Proof. exact (shift_unit_start p binf bsup u). Qed.
+
+(* the retry loop (`while not new_continuum`): what is returned holds a unit, is the result of exactly one pass over a later part of the draw
+   stream (so every theorem above about a pass applies to it), and when every ground-truth annotator has a unit the first pass is returned *)
+Theorem C16_sample_nonempty fuel repaired int_mode dist binf bsup gt st ps anns st' :
+  sample_retry fuel repaired int_mode dist binf bsup gt st = Some (ps, anns, st') -> exists a u us, In (a, u :: us) anns.
+Proof. exact (sample_retry_nonempty fuel repaired int_mode dist binf bsup gt st ps anns st'). Qed.
+Theorem C16_returned_sample_is_one_pass fuel repaired int_mode dist binf bsup gt st ps anns st' :
+  sample_retry fuel repaired int_mode dist binf bsup gt st = Some (ps, anns, st') ->
+  pass_empty anns = false /\ exists st0, sample_once repaired int_mode dist binf bsup gt st0 = Some (ps, anns, st').
+Proof. exact (sample_retry_spec fuel repaired int_mode dist binf bsup gt st ps anns st'). Qed.
+Theorem C16_no_retry_when_all_annotators_have_units fuel repaired int_mode dist binf bsup gt st r :
+  gt <> [] -> Forall (fun us => us <> []) gt ->
+  sample_once repaired int_mode dist binf bsup gt st = Some r ->
+  (forall a, In a (snd (fst r)) -> (fst a < length gt)%nat) ->
+  sample_retry (S fuel) repaired int_mode dist binf bsup gt st = Some r.
+Proof. exact (no_retry_when_all_annotators_have_units fuel repaired int_mode dist binf bsup gt st r). Qed.
 
 (* ---------------------------------------------------------------------------------------------------------------------------------
    Tie to the source: the code as written IS the repaired model (so the theorems above with repaired = true are about the current code):
